@@ -10,6 +10,7 @@ import (
 	"time"
 
 	"github.com/spikeekips/mitum/base"
+	"github.com/spikeekips/mitum/isaac"
 	"verifharness/c04/bbrig"
 	"verifharness/vlib"
 )
@@ -119,8 +120,17 @@ func (m *monitor) buildCase(phase int, idx int, n int, concurrent bool) (*bbrig.
 		SetLast:   rng.Intn(3) == 0,
 		Empty:     rng.Intn(4) == 0,
 	}
+	if rng.Intn(5) < 3 {
+		// the suffrage changes between heights (joins, leaves) and the local
+		// node may not know an older height's suffrage
+		o.SufChange = 0.4
+		o.PermHide = 0.35
+	}
 	g := bbrig.NewGen(w, rng, o)
 	steps := g.Flow()
+	if w.SuffrageChanges() > 1 {
+		r.Count("cases_with_suffrage_changing_between_heights", 1)
+	}
 	cp := caseParams{Index: idx, N: n, Threshold: th.String(), LocalIn: localIn, Heights: o.Heights, Steps: len(steps)}
 	cp.Phase = "single"
 	if concurrent {
@@ -282,6 +292,7 @@ func (m *monitor) directed() {
 		n     int
 		th    base.Threshold
 		build func(w *bbrig.World, g *bbrig.Gen) []bbrig.Step
+		setup func(w *bbrig.World)
 	}
 	all := func(n int) []int {
 		v := make([]int, n)
@@ -361,8 +372,37 @@ func (m *monitor) directed() {
 			},
 		},
 	}
+	cases = append(cases, dcase{
+		// an embedded voteproof must be judged with the suffrage of its own
+		// height: no03 joins at height 33; the local node does not know the
+		// suffrage of height 32; no03's INIT ballot of (34,0) carries an ACCEPT
+		// voteproof of height 33 signed by the suffrage of height 33 (with no03)
+		name: "embedded-voteproof-signed-by-later-suffrage-n4", n: 4, th: 67,
+		setup: func(w *bbrig.World) {
+			w.SetSuffrageFrom(0, []int{0, 1, 2})
+			w.SetSuffrageFrom(33, []int{0, 1, 2, 3})
+		},
+		build: func(w *bbrig.World, g *bbrig.Gen) []bbrig.Step {
+			lp, _ := isaac.NewLastPoint(base.NewStagePoint(base.NewPoint(33, 0), base.StageINIT), true, false)
+			return []bbrig.Step{
+				{Op: "setlast", Last: lp, Desc: "setlast (33,0,INIT) majority"},
+				{Op: "hide", Height: 32, Desc: "hide suffrage of height 32 (never revealed)"},
+				g.DirectedINITVP(w.Members[3], p, "A", "nextsuf"),
+			}
+		},
+	})
+	cases = append(cases, dcase{
+		// a majority of one shared "empty proposal" fact is recorded as a draw
+		name: "empty-proposal-majority-n1", n: 1, th: 67,
+		build: func(w *bbrig.World, g *bbrig.Gen) []bbrig.Step {
+			return []bbrig.Step{g.DirectedINIT(0, p, "empty", nil)}
+		},
+	})
 	for i, dc := range cases {
 		w := bbrig.NewWorld("c04-directed-"+dc.name, dc.n, dc.th, true, 33)
+		if dc.setup != nil {
+			dc.setup(w)
+		}
 		g := bbrig.NewGen(w, r.Rand(9, i), bbrig.ScriptOpts{})
 		steps := dc.build(w, g)
 		steps = append(steps, bbrig.Step{Op: "count", Desc: "count"})
@@ -397,7 +437,7 @@ func TestC04(t *testing.T) {
 	defer r.Finish()
 	r.SetRule("case = (suffrage size 1..9, threshold, local in/out of suffrage, generated script of Vote/VoteSignFact/Count/SetLastPoint/StuckVoteproof/suffrage hide+reveal steps over 2-4 heights (2-3 in the quick tier: every Vote costs ~0.1s CPU under -race) with INIT, ACCEPT, suffrage-confirm, expel, hostile-expel, hostile embedded voteproofs, outsiders, foreign keys, conflicting ballots) run against a real Ballotbox (interval and countAfter 1ms, ticker on); every voteproof read from box.Voteproof() or returned by StuckVoteproof is judged; distinct = (n, threshold, local, script hash, phase); non-trivial = the box emitted at least one voteproof in the case")
 	r.Assume("only ballots and sign facts that pass IsValid(networkID) are submitted (the network handlers guarantee that before Vote)")
-	r.Assume("the suffrage of a height never changes once getSuffrage reports it (heights may be 'not found yet' first)")
+	r.Assume("the suffrage of a height never changes once getSuffrage reports it (heights may be 'not found' for a while or for ever); suffrages of consecutive heights may differ (joins, leaves); every emitted voteproof is judged with the true suffrage of its own height from the world table, not with what the box was told")
 	r.Assume("stuck voteproofs are draws by construction (isaac baseStuckVoteproof.finish clears the majority and validation skips their recount); clause (d) asks of them only Result()==DRAW")
 	r.Assume("recount uses the voteproof's own threshold to one decimal, the suffrage of height-1, and for voteproofs with expels the reduced suffrage at 100% as isaac.IsValidVoteproofWithSuffrage defines it")
 
